@@ -187,4 +187,40 @@ def RawConfig.parse (r : RawConfig) : Outcome :=
     | _, _, _, _, _, _ => .unmodelled "list"
   | _, _, _, _ => .unmodelled "port"
 
+/-! ## config.DefaultConfig + command-line flags + Config.FillConfigFromEnvironment -/
+
+/-- What FillConfigFromEnvironment reads from outside the flags. -/
+structure Environment where
+  ownerGroupsInclude : Option String   -- ISTIO_OUTBOUND_OWNER_GROUPS (unset: "*")
+  ownerGroupsExclude : Option String   -- ISTIO_OUTBOUND_OWNER_GROUPS_EXCLUDE (unset: "")
+  loCidr             : Option String   -- ISTIO_OUTBOUND_IPV4_LOOPBACK_CIDR (unset: 127.0.0.1/32)
+  envoyUID           : String          -- uid of ENVOY_USER, or DefaultProxyUID when the lookup fails
+  localIsV6          : Bool            -- getLocalIP: is the pod address IPv6
+  resolvConf         : List String     -- nameservers of /etc/resolv.conf
+
+def orDefault (s d : String) : String := if s.isEmpty then d else s
+
+/-- `netutil.IPsSplitV4V6`: unparsable entries are dropped, the rest printed canonically. -/
+def ipsSplitV4V6 (l : List String) : List String × List String :=
+  (l.filterMap (fun s => if s.contains ':' then none else (parseV4 s).map v4Text),
+   l.filterMap (fun s => if s.contains ':' then (parseV6 s).map v6Text else none))
+
+/-- `flags`: the values given on the command line ("" = flag absent, DefaultConfig value stays). -/
+def RawConfig.fill (flags : RawConfig) (e : Environment) : RawConfig :=
+  let uid := orDefault flags.proxyUID e.envoyUID
+  let useResolv := flags.redirectDNS && !flags.captureAllDNS
+  { flags with
+    proxyPort := orDefault flags.proxyPort "15001",
+    inboundCapturePort := orDefault flags.inboundCapturePort "15006",
+    inboundTunnelPort := orDefault flags.inboundTunnelPort "15008",
+    tproxyMark := orDefault flags.tproxyMark "1337",
+    proxyUID := uid,
+    proxyGID := orDefault flags.proxyGID uid,
+    ownerGroupsInclude := e.ownerGroupsInclude.getD "*",
+    ownerGroupsExclude := e.ownerGroupsExclude.getD "",
+    loCidr := e.loCidr.getD "127.0.0.1/32",
+    enableIPv6 := e.localIsV6,
+    dnsV4 := if useResolv then (ipsSplitV4V6 e.resolvConf).1 else [],
+    dnsV6 := if useResolv then (ipsSplitV4V6 e.resolvConf).2 else [] }
+
 end IstioModel.C20
